@@ -31,6 +31,34 @@ func c15Judge(k c15Case) *vlib.Failure {
 	if i := firstDiff(a, b); i >= 0 {
 		return vlib.Failf("twin (%s) answers %s (debug=%t) differently:\n base %s -> %s\n twin %s -> %s", k.How, suite[i%len(suite)], i >= len(suite), k.Base.GoLiteral(), a[i], k.Twin.GoLiteral(), b[i])
 	}
+	// the same on the other way into a configuration: both are installed by Reconfigure on middlewares that currently
+	// hold a common predecessor, the base with one more entry in every list (so that the predecessor's lists are as
+	// long as a twin with one duplicate and contain every entry of it)
+	pred := k.Base
+	pred.Origins = append(append([]string(nil), k.Base.Origins...), "https://zz-extra.example")
+	if len(k.Base.Methods) > 0 {
+		pred.Methods = append(append([]string(nil), k.Base.Methods...), "ZZEXTRA")
+	}
+	if len(k.Base.RequestHeaders) > 0 {
+		pred.RequestHeaders = append(append([]string(nil), k.Base.RequestHeaders...), "X-Zz-Extra")
+	}
+	if len(k.Base.ResponseHeaders) > 0 {
+		pred.ResponseHeaders = append(append([]string(nil), k.Base.ResponseHeaders...), "X-Zz-Extra-R")
+	}
+	pb, e1 := cors.NewMiddleware(pred.Config())
+	pt, e2 := cors.NewMiddleware(pred.Config())
+	if e1 != nil || e2 != nil {
+		return nil // this base has no such predecessor (e.g. its lists end with an entry that forbids more)
+	}
+	cb, ct := k.Base.Config(), k.Twin.Config()
+	if e1, e2 := pb.Reconfigure(&cb), pt.Reconfigure(&ct); e1 != nil || e2 != nil {
+		return vlib.Failf("base and twin (%s) are accepted by NewMiddleware but not by Reconfigure on a configured middleware: base err=%v, twin err=%v", k.How, e1, e2)
+	}
+	suite = suiteFor(k.Base, k.Twin, pred)
+	a, b = observe(pb, suite), observe(pt, suite) // debug off only: the debug-mode renderings were compared above
+	if i := firstDiff(a, b); i >= 0 {
+		return vlib.Failf("twin (%s), both installed by Reconfigure on a middleware holding %s, answers %s (debug=%t) differently:\n base %s -> %s\n twin %s -> %s", k.How, pred.GoLiteral(), suite[i%len(suite)], i >= len(suite), k.Base.GoLiteral(), a[i], k.Twin.GoLiteral(), b[i])
+	}
 	return nil
 }
 
